@@ -117,10 +117,10 @@ pub fn exec(req: &Sexp, out: &mut Out, tags: &str) {
             });
             if let (Ok(m), true) = (&r, kinds_agree) {
                 // property: both merged answers are instances of the result
-                let ms = enc_subst(&m.value);
+                let ms = erase_const_types(&enc_subst(&m.value));
                 let n = g.len().min(a.len());
-                let gs = enc_args(&g[..n]);
-                let as_ = enc_args(&a[..n]);
+                let gs = erase_const_types(&enc_args(&g[..n]));
+                let as_ = erase_const_types(&enc_args(&a[..n]));
                 if !instance_of(&ms, &gs) {
                     out.fail("the old guidance is not an instance of the merged guidance", &req.to_string(), "merge_not_general_old");
                 }
